@@ -86,6 +86,10 @@ def generate(seed, mode="c15", opts=None):
     via = ch.pick(["default", "name", "module", "direct"], "via")
     if via == "default" and len(reg) > 1:
         ops.append(["set_default", target, ch.pick(["module", "name"], "sd")])
+    late = [p_ for p_ in PDKS if p_ not in reg]
+    if late and ch.chance(1, 2):
+        # a further PDK is registered only now (a late import), after the default was chosen
+        ops.append(["register", ch.pick(late, "late")])
     pre = ch.weighted([(3, None), (1, "elaborate"), (1, "to_proto")], "pre")
     if pre:
         ops.append([pre])
@@ -311,6 +315,7 @@ def execute(scn):
 
     compiled_with = None
     compiled_ok = False
+    default_set = {}  # which PDK the session explicitly made the default
     for op in scn["ops"]:
         if res["findings"]:
             break
@@ -321,6 +326,8 @@ def execute(scn):
                 probe("registered:" + op[1])
             elif k == "set_default":
                 h.pdk.set_default(pdk_module(op[1]) if op[2] == "module" else pdk_module(op[1]).__name__)
+                default_set.clear()
+                default_set[op[1]] = True
             elif k in ("elaborate", "to_proto"):
                 getattr(h, k)(top)
             elif k == "compile":
@@ -339,8 +346,10 @@ def execute(scn):
                 before = [snapshot(g_[0]) for g_ in groups]
                 try:
                     if via == "default":
-                        if len(P._mgr.modules) > 1 and P._mgr.default is not pm:
+                        if len(P._mgr.modules) > 1 and not default_set.get(pname):
                             h.pdk.set_default(pm)
+                            default_set.clear()
+                            default_set[pname] = True
                         h.pdk.compile(src)
                     elif via == "name":
                         h.pdk.compile(src, pdk=pm.__name__)
